@@ -11,11 +11,11 @@ from vcheck import log
 # (family, runs, steps)
 PLANS = {
     "C01": dict(models=dict(quick=[("MC_HRaft.tla", "MC_Election_q.cfg", 300)], thorough=[("MC_HRaft.tla", "MC_Election.cfg", 900), ("MC_HRaft.tla", "MC_Crash.cfg", 900)]), families=dict(quick=[("chaos", 24, 500), ("elect", 24, 400)], thorough=[("chaos", 160, 800), ("elect", 200, 600), ("member", 80, 500)])),
-    "C02": dict(models=dict(quick=[("MC_HRaft.tla", "MC_Replication_q.cfg", 300)], thorough=[("MC_HRaft.tla", "MC_Replication.cfg", 900), ("MC_HRaft.tla", "MC_Snapshot_q.cfg", 900)]), families=dict(quick=[("chaos", 16, 500), ("snap", 24, 500), ("client", 8, 400), ("restoreinflight", 12, 0), ("dupis", 9, 500), ("snapcfgrace", 16, 0)], thorough=[("chaos", 120, 800), ("snap", 200, 800), ("client", 80, 600), ("restart", 80, 600), ("restoreinflight", 96, 0), ("restore", 60, 500), ("dupis", 48, 500), ("snapcfgrace", 96, 0), ("snapmember", 60, 500)])),
+    "C02": dict(models=dict(quick=[("MC_HRaft.tla", "MC_Replication_q.cfg", 300)], thorough=[("MC_HRaft.tla", "MC_Replication.cfg", 900), ("MC_HRaft.tla", "MC_Snapshot_q.cfg", 900)]), families=dict(quick=[("chaos", 16, 500), ("snap", 24, 500), ("client", 8, 400), ("restoreinflight", 12, 0), ("dupis", 9, 500), ("snapcfgrace", 16, 0), ("staleprefix", 4, 0)], thorough=[("chaos", 120, 800), ("snap", 200, 800), ("client", 80, 600), ("restart", 80, 600), ("restoreinflight", 96, 0), ("restore", 60, 500), ("dupis", 48, 500), ("snapcfgrace", 96, 0), ("snapmember", 60, 500), ("staleprefix", 32, 0)])),
     "C03": dict(models=dict(quick=[("MC_HRaft.tla", "MC_Replication_q.cfg", 300)], thorough=[("MC_HRaft.tla", "MC_Replication.cfg", 900), ("MC_HRaft.tla", "MC_Crash.cfg", 900)]), families=dict(quick=[("chaos", 24, 500), ("restart", 16, 400), ("figure8", 24, 0), ("dupis", 9, 500)], thorough=[("chaos", 200, 800), ("restart", 120, 600), ("member", 60, 500), ("figure8", 64, 0), ("dupis", 48, 500)])),
     "C04": dict(models=dict(quick=[], thorough=[("MC_HRaft.tla", "MC_Replication.cfg", 900)]), families=dict(quick=[("chaos", 16, 500), ("snap", 12, 400)], thorough=[("chaos", 200, 800), ("snap", 120, 600), ("restart", 80, 600)]), suites=["l2:ae"]),
     "C05": dict(models=dict(quick=[("MC_HRaft.tla", "MC_Replication_q.cfg", 300)], thorough=[("MC_HRaft.tla", "MC_Replication.cfg", 900), ("MC_HRaft.tla", "MC_Membership.cfg", 1200)]), families=dict(quick=[("chaos", 20, 500), ("member", 16, 400), ("figure8", 8, 0), ("dupis", 9, 500)], thorough=[("chaos", 160, 800), ("member", 120, 600), ("figure8", 64, 0), ("dupis", 48, 500)]), suites=["l1:commitment"]),
-    "C06": dict(models=dict(quick=[("MC_HRaft.tla", "MC_Crash_q.cfg", 300)], thorough=[("MC_HRaft.tla", "MC_Crash.cfg", 900), ("MC_HRaft.tla", "MC_Election.cfg", 900)]), families=dict(quick=[("elect", 16, 400)], thorough=[("elect", 240, 600), ("chaos", 80, 600)]), suites=["l2:vote", "l2:vote2"]),
+    "C06": dict(models=dict(quick=[("MC_HRaft.tla", "MC_Crash_q.cfg", 300)], thorough=[("MC_HRaft.tla", "MC_Crash.cfg", 900), ("MC_HRaft.tla", "MC_Election.cfg", 900)]), families=dict(quick=[("elect", 16, 400)], thorough=[("elect", 240, 600), ("chaos", 80, 600)]), suites=["l2:vote", "l2:vote2", "l2:vote3"]),
     "C07": dict(models=dict(quick=[("MC_HRaft.tla", "MC_Membership_q.cfg", 300)], thorough=[("MC_HRaft.tla", "MC_Membership.cfg", 1200)]), families=dict(quick=[("member", 24, 400), ("cfgtrunc", 8, 0), ("snapmember", 8, 400)], thorough=[("member", 240, 600), ("cfgtrunc", 32, 0), ("snapmember", 80, 500)]), suites=["l1:configuration"]),
     "C08": dict(families=dict(quick=[("client", 32, 400)], thorough=[("client", 240, 600), ("chaos", 80, 600)])),
     "C09": dict(families=dict(quick=[("verify", 32, 400), ("member", 8, 400)], thorough=[("verify", 240, 600), ("member", 80, 500)])),
@@ -205,6 +205,8 @@ L2 = {
                  bounds="images: every (CurrentTerm, LastVoteTerm, LastVoteCand) over terms 1..3 x candidates x logs; one RequestVote/RequestPreVote/TimeoutNow with every term/candidate/last-log position/transfer flag, a crash before the 1st..3rd stable write or an injected error on the 1st/2nd failable write, then restart"),
     "restart": dict(quick="L2_restart_q.cfg", thorough="L2_restart.cfg", stride=dict(quick=1, thorough=1),
                     bounds="every durable image (log of <=2 / <=3 entries over terms 1..3, with/without snapshot and trailing entry, three vote records) x store flavour {plain, monotonic, commit-tracking with every staged commit index}: NewRaft on it, then crash and NewRaft again"),
+    "vote3": dict(quick="L2_vote3.cfg", thorough="L2_vote3.cfg", stride=dict(quick=1, thorough=1),
+                  bounds="every image whose snapshot is at or ahead of the end of its log (log of <=3 entries over terms 1..3 compacted to 0/1 trailing entries, current term = last term or +1) x one RequestVote / RequestPreVote with every term / candidate / last-log position relative to the snapshot / transfer flag"),
     "vote2": dict(quick="L2_vote2.cfg", thorough="L2_vote2.cfg", stride=dict(quick=4, thorough=1),
                   bounds="as 'vote' from the images with CurrentTerm 2 and a 2-entry log, followed by a second fault-free RequestVote from either candidate"),
 }
